@@ -38,6 +38,7 @@ import re
 import shutil
 import tempfile
 import types
+import unicodedata
 import warnings
 
 import numpy as np
@@ -87,6 +88,25 @@ RULE = (
     'columns and block content incl. one-shot ones; the same objects saved again, saved after a refused save, after '
     'repr / == / copy / deepcopy / pickle; refusal paths (block names with blanks, loop columns that are not 1-d or '
     'of another length, metadata variables with a unit) followed by a normal use; 600-point reduced data.  '
+    '(h) strings that are not in Unicode normal form NFC / NFKC (letter + combining marks, marks in non-canonical '
+    'order, ANGSTROM / KELVIN / OHM / MICRO SIGN, fullwidth forms, ligatures, conjoining jamo, GREEK QUESTION MARK, '
+    'compatibility ideographs, superscripts; also leading, quoted, multi-line) as chunk values, loop cells, block '
+    'names (every way of naming), comments (every way of commenting) and every free-text string of the builder: an '
+    'escape must denote exactly the supplied code point.  (i) path targets in their file-system forms for save_cif(Block) / '
+    'CIF.save / save_cif(CIF): symlink (absolute, relative, dangling, chain) given as str / Path / PathLike, either of two '
+    'hard-linked names, <symlinked dir>/../name with a decoy file, the same relative name from two working directories, a '
+    'target a reader holds open, a 255-byte name, an existing file with mode 0640; afterwards the file the name DENOTED '
+    '(os.path.realpath taken before the call; the other hard link; the descriptor opened earlier) is read and judged like '
+    'any document, links are still the same links, the decoy is untouched; BytesIO targets (refused with TypeError on the '
+    'unchanged tree: counted).  (j) the same objects saved again after in-place modification (column values, variances, a '
+    'string cell, a slice, scalar variables, arithmetic in place, setitem / add / rename, a replaced column; a data array '
+    'modified between two with_reduced_powder_data calls); results of with_* / copy() / Block.copy() written into and the '
+    'objects they were made from saved again, arguments written into after with_* and the earlier builder saved again.  '
+    '(k) the first call (save_cif, Block.write, CIF.save of a full builder chain) of a fresh interpreter that imported only '
+    'scipp and scippneutron.io.cif: its text is judged like any document and compared with the text this process writes.  '
+    '(l) sizes coinciding with internal ones: 0..3 contact x regular authors and reducers (pair versus loop), calibrations of '
+    '1, 3, 4, 5, 6 powers (4 standard ids), loops of 1..3 rows x 1..4 columns on the dim of the schema loop, block codes of 1, '
+    '2, 74, 75, 76 characters.  '
     'A case is trivial when all its strings are plain alphanumeric; distinct = distinct '
     '(document kind, way of saving, value/hostility classes present, shape band, ways used, form of the content, '
     'calling convention, kind of target / handle and position in the call sequence) signatures'
@@ -116,6 +136,19 @@ ASSUMPTIONS = [
     'demanded; when such an input is accepted instead the written document is judged like any other',
     'Block.copy() of a block without schema lists coreCIF in an audit_conform loop (unchanged tree): treated as '
     'generated content',
+    'an escape of a non-ASCII character is recognised in the notations \\xHH \\uHHHH \\UHHHHHHHH \\u{H} &#D; &#xH; '
+    '\\N{NAME} and must then denote exactly the supplied code point; an escape in any other notation must contain the '
+    'code point number (hex or decimal) or its Unicode name; canonically / compatibility-equivalent code points are '
+    'other strings',
+    'the e-mail address of a Person is a validated entity (pydantic EmailStr normalises internationalised addresses), '
+    'not free text: only ASCII addresses are supplied',
+    'a path target denotes the file os.path.realpath gives for it at the time of the call; replacing the directory '
+    'entry instead of writing into that file is only noticed (and judged) where the difference is observable: links, '
+    'second hard links, descriptors opened earlier',
+    'Chunk / Loop / Block hold the objects they were given (no copies on the unchanged tree): an object modified in '
+    'place between two saves is written with the contents it has at the time of the save; the builder\'s '
+    'with_reduced_powder_data / with_powder_calibration take values and variances as they are when they are called '
+    '(the power coordinate of a calibration is kept by reference on the unchanged tree: counted, not judged)',
 ]
 TECHNIQUE = ('runtime monitors (sys.monitoring) on _format_value, _write_comment and on every document '
              'written by save_cif / CIF.save / Block.write; independent CIF 1.1 lexer/parser as decoder')
@@ -136,22 +169,87 @@ EPS = float(np.finfo(np.float64).eps)
 # ======================================================================
 # expected values (this module's model of what was supplied)
 # ======================================================================
-def _escaped_pattern(s: str):
-    """Regex for ``s`` with every non-ASCII character replaced by *some* non-empty
-    blank-free printable-ASCII escape (the property asks for "escaped to ASCII",
-    not for a particular escape)."""
-    parts = []
-    for ch in s:
-        parts.append(re.escape(ch) if ord(ch) < 128 else '[!-~]+?')
-    return re.compile(''.join(parts), re.DOTALL)
+# Notations for "this code point" that are recognised as escapes.  The property asks for "escaped to
+# ASCII" and for strings that are *recovered*: whatever notation the writer uses, the escape must
+# identify the code point that was supplied - a canonically or compatibility-equivalent code point
+# (U+00C5 for U+212B, 'K' for U+212A, ';' for U+037E, a composed letter for letter + combining mark)
+# is another string.
+_ESC_NOTATIONS = re.compile(
+    r'\\x([0-9a-fA-F]{2})|\\u([0-9a-fA-F]{4})|\\U([0-9a-fA-F]{8})|\\u\{([0-9a-fA-F]{1,8})\}'
+    r'|&#x([0-9a-fA-F]{1,8});|&#([0-9]{1,8});|\\N\{([^}\n]{1,100})\}')
+_MAX_ESCAPE = 40
 
 
-def str_matches(supplied: str, text: str) -> bool:
+def _denoted(m):
+    """Code point a match of ``_ESC_NOTATIONS`` stands for (None: no such character)."""
+    g = m.groups()
+    try:
+        if g[6] is not None:
+            return ord(unicodedata.lookup(g[6]))
+        if g[5] is not None:
+            return int(g[5])
+        return int(next(h for h in g[:5] if h is not None), 16)
+    except (KeyError, ValueError):
+        return None
+
+
+def _carries(cp: int, esc: str) -> bool:
+    """An escape in a notation not listed above still has to name the code point: by its number
+    (hex or decimal) or by its Unicode name."""
+    low = esc.lower()
+    if format(cp, 'x') in low or str(cp) in low:
+        return True
+    try:
+        return unicodedata.name(chr(cp)).lower() in low
+    except ValueError:
+        return False
+
+
+def str_mismatch(supplied: str, text: str):
+    """None when ``text`` (as parsed from the file) is the supplied string up to surrounding
+    blanks, with every non-ASCII character replaced by an ASCII escape that denotes exactly that
+    code point; else a short reason."""
     want = supplied.strip(BLANKS)
     got = text.strip(BLANKS)
     if want.isascii():
-        return got == want
-    return got.isascii() and _escaped_pattern(want).fullmatch(got) is not None
+        return None if got == want else 'differs'
+    if not got.isascii():
+        return 'not ASCII'
+    # positions in ``got`` reachable after the first i characters of ``want``
+    reach = {0}
+    detail = None
+    for ch in want:
+        nxt = set()
+        cp = ord(ch)
+        for pos in reach:
+            if cp < 128:
+                if got[pos:pos + 1] == ch:
+                    nxt.add(pos + 1)
+                continue
+            m = _ESC_NOTATIONS.match(got, pos)
+            if m is not None:
+                d = _denoted(m)
+                if d == cp:
+                    nxt.add(m.end())
+                elif detail is None:
+                    detail = (f'escape {m.group(0)} denotes ' + (f'U+{d:04X}' if d is not None else 'no character')
+                              + f', supplied U+{cp:04X}')
+                continue
+            for end in range(pos + 1, min(len(got), pos + _MAX_ESCAPE) + 1):
+                if not '!' <= got[end - 1] <= '~':
+                    break
+                if _carries(cp, got[pos:end]):
+                    nxt.add(end)
+        if not nxt:
+            if cp < 128:
+                return detail or f'the supplied character {ch!r} is missing where it is due'
+            return detail or f'no escape that denotes U+{cp:04X} where one is due'
+        reach = nxt
+    return None if len(got) in reach else (detail or 'differs behind the last non-ASCII character')
+
+
+def str_matches(supplied: str, text: str) -> bool:
+    return str_mismatch(supplied, text) is None
 
 
 def _decimals_and_unit(num: str, su: str):
@@ -183,7 +281,10 @@ def match_value(ev, val: cif11.Value, env=None):
     k = ev[0]
     text = val.text
     if k == 'str':
-        return None if str_matches(ev[1], text) else f'string {_short(ev[1])} read back as {_short(text)}'
+        why = str_mismatch(ev[1], text)
+        if why is None:
+            return None
+        return f'string {_short(ev[1])} read back as {_short(text)}' + ('' if why == 'differs' else f' ({why})')
     if k == 'any':
         return None
     if k in ('nonblank', 'unique'):   # 'unique': distinctness is judged per column
@@ -249,7 +350,7 @@ def match_value(ev, val: cif11.Value, env=None):
 
 
 def _short(s, n=60):
-    s = repr(s)
+    s = ascii(s) if isinstance(s, str) and not s.isascii() else repr(s)
     return s if len(s) <= n else s[:n] + '...'
 
 
@@ -350,6 +451,23 @@ def _cname(c):
     return names.get(c, c)
 
 
+# Printable text that is not in Unicode normal form NFC and / or NFKC (what macOS file dialogs, many
+# keyboards and instrument software produce): every character is its own code point and comes back as
+# that code point - text that merely normalises to the same letters is another string.
+NON_NORMALISED = (
+    ('combining_acute', 'Jose\u0301'), ('combining_ring_diaeresis', 'A\u030angstro\u0308m'),
+    ('combining_with_blank', 'Jose\u0301 Garci\u0301a'), ('marks_in_non_canonical_order', 'a\u0301\u0323'),
+    ('angstrom_sign', '1.54\u212b'), ('kelvin_sign', '293\u212a'), ('ohm_sign', '50\u2126'),
+    ('micro_sign', '5\xb5s'), ('fullwidth', '\uff21\uff42\uff11'), ('ligature', 'e\ufb03cient'),
+    ('conjoining_jamo', '\u1112\u1161\u11ab'), ('greek_question_mark', 'why\u037e'),
+    ('lead_greek_question_mark', '\u037ewhy'), ('lead_fullwidth_underscore', '\uff3ftag'),
+    ('lead_fullwidth_hash', '\uff03c'), ('fullwidth_reserved_word', '\uff44ata_x'),
+    ('compatibility_ideograph', '\uf900\uf901'), ('superscripts', 'm\xb2s\u207b\xb9'),
+    ('roman_numeral', 'phase_\u2163'), ('quotes_and_signs', "l'\u212b \"\u212a\""),
+    ('multiline', 'Jose\u0301\n\u212b \u037e'),
+)
+
+
 def forced_strings():
     out = []
     for o in range(32, 127):
@@ -383,6 +501,7 @@ def forced_strings():
         ('nonascii:squote', "l'\xe9t\xe9"), ('nonascii:both_quotes', 'na\xefve "x" \'y\''),
         ('nonascii:newline', '\xfc\n\xf6'), ('nonascii:lead', '\xb5m'),
     ]
+    out += [(f'nonnfc:{n}', t) for n, t in NON_NORMALISED]
     for w in RESERVED:
         stem = w[:-1]
         for variant in (stem.lower(), stem.upper(), stem.capitalize()):
@@ -399,7 +518,7 @@ assert len(FORCED_BY_STRING) == len(FORCED)
 _ALNUM = 'abcdefghijklmnopqrstuvwxyzABCDEFGHIJKLMNOPQRSTUVWXYZ0123456789'
 _PUNCT = '!%&()*+,-./:<=>?@\\^`{|}~'
 _SPECIAL = '_#$;[]\'"'
-_NONASCII = '\xe9\xfc\xc5\xb5λ日\U0001f600'
+_NONASCII = '\xe9\xfc\xc5\xb5λ日\U0001f600\u0301\u212b\u212a\u037e\ufb01\uff21'
 
 
 def benign_string(rng, lo=1, hi=12):
@@ -1195,7 +1314,7 @@ def _block_name(rng):
     n = int(rng.integers(1, 30))
     s = ''.join(pool[int(i)] for i in rng.integers(0, len(pool), size=n))
     if r > 0.92:
-        s += '\xe9'
+        s += _NONASCII[len(s) % len(_NONASCII)]
     return s
 
 
@@ -2151,8 +2270,12 @@ def gen_builder(rng, cif, md, tmpdir, k):
 
 
 # ---- forced programs and documents: one per class named in requirements() -------------------
-_NA_COMMENTS = ('d-spacing in \xc5, λ = 1.5 \xc5', 'caf\xe9\nsecond line \xb5m at 20 \xb0C', '日本語 # data_x')
+_NA_COMMENTS = ('d-spacing in \xc5, λ = 1.5 \xc5', 'caf\xe9\nsecond line \xb5m at 20 \xb0C', '日本語 # data_x',
+                # not in NFC / NFKC form
+                'Jose\u0301 at 1.54 \u212b, 293 \u212a\n\u037e e\ufb03cient \uff03\uff44ata_x')
 _NA_NAME = 'r\xe9sum\xe9_\xc5'
+_NA_NAMES = (('', _NA_NAME), (':nonnfc', 'Jose\u0301_\u212b_\u212a\u037e\ufb01\uff21'),
+             (':nonnfc_lead', '\u037e\uff3fA\u030a'))
 
 
 def _reduced_op(unit, dim='dspacing', **kw):
@@ -2211,8 +2334,20 @@ def forced_programs():
                     {'name': 'forced', 'ops': [{'op': 'calibration', 'powers': [0, 1], 'cx': [3.4, 0.2],
                                                 'cv': None, 'comment': c}]}))
     for way in ('CIF(name)', 'CIF(name=)', 'CIF.name=', 'CIF.name=end'):
-        out.append((f'name_way:{way}', {'name': _NA_NAME, 'name_way': way,
-                                        'ops': [{'op': 'reducers', 'items': [a]}]}))
+        for suffix, nm in _NA_NAMES:
+            out.append((f'name_way:{way}{suffix}', {'name': nm, 'name_way': way,
+                                                    'ops': [{'op': 'reducers', 'items': [a]}]}))
+    # every free-text string of the builder, not in NFC / NFKC form: names, addresses, roles, beamline,
+    # facility, reducers
+    for label, t in NON_NORMALISED:
+        # (not the e-mail address: metadata.Person validates it as pydantic.EmailStr, which normalises
+        # internationalised addresses - a validated entity, not one of the free-text strings)
+        out.append((f'nonnfc:builder:{label}', {'name': 'forced', 'ops': [
+            {'op': 'beamline', 'facility': t, 'name': t, 'source': None},
+            {'op': 'authors', 'people': [person(t, True, t, None, 'jane@ess.eu', t),
+                                         person('Second Author', False, None, None, None, t),
+                                         person(t, False, 'reviewer')]},
+            {'op': 'reducers', 'items': [t, 'other software 1.0']}]}))
     for via in BUILDER_VIAS:
         out.append((f'save_way:{via}', {'name': 'forced', 'via': via, 'top': 'top', 'ops': [
             {'op': 'authors', 'people': [p1, p2]}, {'op': 'reducers', 'items': [a, a]}]}))
@@ -2281,7 +2416,8 @@ def forced_lowlevel():
         for w in BLOCK_COMMENT_WAYS:
             out.append((f'comment_way:{w}:{i}', None, None, w, 'Block(name)', i))
     for w in BLOCK_NAME_WAYS:
-        out.append((f'name_way:{w}', None, None, None, w, 0))
+        for j, (suffix, _) in enumerate(_NA_NAMES):
+            out.append((f'name_way:{w}{suffix}', None, None, None, w, j))
     out.append(('dup:loop_rows_equal', None, None, None, 'Block(name)', 0))
     out.append(('dup:chunk_values_equal', None, None, None, 'Block(name)', 0))
     return out
@@ -2289,8 +2425,8 @@ def forced_lowlevel():
 
 def gen_forced_lowlevel(cif, spec):
     cls, cway, lway, bway, nway, i = spec
-    c = _NA_COMMENTS[i]
-    name = _NA_NAME if cls.startswith('name_way') else 'forced'
+    c = _NA_COMMENTS[0 if cls.startswith('name_way') else i]
+    name = _NA_NAMES[i][1] if cls.startswith('name_way') else 'forced'
     pairs = {'t.a': 'x', 't.b': sc.scalar(1.5, unit='angstrom')}
     vals = ['p', 'q', 'p']
     if cls == 'dup:loop_rows_equal':
@@ -2646,11 +2782,17 @@ def _sp_block_names(env):
     # names at and beyond the 75 characters CIF 1.1 allows for a block code: a warning, the name is written
     for n in (75, 76, 120):
         nm = ('n%d_' % n + 'abcdefghij' * 12)[:n]
-        with warnings.catch_warnings(record=True) as caught:
-            warnings.simplefilter('always')
-            blk = cif.Block(nm, [{'k.v': 'x'}])
-            b2 = cif.Block('short', [{'k.v': 'x'}])
-            b2.name = nm
+        try:
+            with warnings.catch_warnings(record=True) as caught:
+                warnings.simplefilter('always')
+                blk = cif.Block(nm, [{'k.v': 'x'}])
+                b2 = cif.Block('short', [{'k.v': 'x'}])
+                b2.name = nm
+        except UserWarning:
+            # a caller who turned warnings into errors (the runner's strict-caller variant): the documented
+            # warning about more than 75 characters reaches him as an exception - a refusal he asked for
+            ctx.count(f'refused:block_name_{n}_chars:warning_as_error')
+            continue
         ctx.count(f'block_name_{n}_chars.warnings', len(caught))
         for obj in (blk, b2):
             x = XDoc('lowlevel', 'save_cif:buffer', [XBlock(nm, [XItem('pair', ['k.v'], [[('str', 'x')]])])],
@@ -2993,6 +3135,574 @@ def _sp_block_content_forms(env):
         env.execute(lambda obj=obj: cif.save_cif(io.StringIO(), cif.Block('content', [obj])), x)
 
 
+# ======================================================================
+# file-system forms of a path target
+# ======================================================================
+# "fname: Path or file handle for the output file": the document goes into the file the name DENOTES
+# when the call is made - resolved here with os.path.realpath / os.stat before the call, never by asking
+# the package.  Whoever opens that file afterwards (under its real name, through the other hard link,
+# through a descriptor opened earlier) finds the supplied document; a link stays a link; files that
+# merely have a similar name are left alone.
+FS_FORMS = ('symlink_abs:str', 'symlink_rel:Path', 'symlink_dangling:PathLike', 'symlink_chain:str',
+            'symlink_to_other_dir_dangling:Path', 'hardlink:str', 'hardlink_other_name:Path',
+            'symlinked_dir/../name:str', 'relative:cwd_changed_between_calls', 'relative_symlink:cwd_changed',
+            'reader_holds_target_open:str', 'name_255_bytes:str', 'mode_0640_existing:str')
+FS_SAVERS = ('save_cif(Block)', 'CIF.save', 'save_cif(CIF)')
+WRONG_FILE_MECH = 'path_target_not_the_denoted_file'
+
+
+def _fs_document(env, saver, tag, n):
+    """(act(target), XDoc): a document of a length governed by ``n``."""
+    if saver == 'save_cif(Block)':
+        return simple_lowlevel(env.cif, f'run-{tag}', n, via='save_cif:path')
+    prog = _session_program('B', 0)
+    prog = dict(prog, name=f'reduced-{tag}', sig=('fs', saver),
+                via='CIF.save:path' if saver == 'CIF.save' else 'save_cif(cif):path')
+    prog['ops'] = [*prog['ops'][:3], dict(_reduced_op('counts', 'tof'), cx=[100.0 + 2.5 * i for i in range(n)],
+                                          dx=[10.0 + i for i in range(n)], dv=[0.25 * (i + 1) for i in range(n)])]
+    return build_program(env.cif, env.md, prog, env.tmpdir, f'fs{tag}')
+
+
+def judge_named_file(env, x, source, form, label):
+    """Judge what ``source`` (a path, or an open reader positioned anywhere) holds against ``x``."""
+    ctx, mon = env.ctx, env.mon
+    x2 = _copy.copy(x)
+    x2.report_as = ('doc_wrong_file', {'mechanism': WRONG_FILE_MECH, 'form': form})
+    mon.begin(x2, keep_t0=True)
+    try:
+        case = x2.describe()
+        case['read_as'] = label
+        mon._set_reporter(x2, case, f'{x.via} to {form}, reading {label}')
+        mon.judged_docs += 1
+        try:
+            if hasattr(source, 'read'):
+                source.seek(0)
+                raw = source.read()
+            else:
+                with open(source, 'rb') as fh:
+                    raw = fh.read()
+        except FileNotFoundError:
+            ctx.event('document.denoted_file')
+            mon._report('missing', f'the file {label} does not exist after the call')
+            return
+        except Exception:  # noqa: BLE001
+            ctx.oracle_error('C14 reading the denoted file')
+            return
+        ctx.event('document')
+        ctx.event('document.denoted_file')
+        try:
+            text = raw.decode('ascii')
+        except UnicodeDecodeError:
+            text = raw.decode('utf-8', 'replace')
+        mon.judge_text(x2, text, case)
+    finally:
+        mon.end()
+
+
+def _write_old(path, marker='old'):
+    with open(path, 'w') as f:
+        f.write(OLD_TEXT.replace('old_document', marker + '_document'))
+
+
+def _fs_case(env, saver, form, root, tag):
+    """One file-system form: set it up, note what the name denotes, call, read every name of the file."""
+    ctx = env.ctx
+    kind, _, how = form.partition(':')
+    store, results = os.path.join(root, 'store'), os.path.join(root, 'results')
+    os.makedirs(store)
+    os.makedirs(results)
+    wrap = {'Path': pathlib.Path, 'PathLike': FsPath}.get(how, str)
+    act, x = _fs_document(env, saver, tag, 3)
+    x.sig = tuple(x.sig) + ('fs', form, saver)
+    reads, still_links, untouched, reader, cwd = [], [], [], None, None
+    real = os.path.join(store, 'run-0042.cif')
+    link = os.path.join(results, 'latest.cif')
+    if kind == 'symlink_abs':
+        _write_old(real)
+        os.symlink(real, link)
+        target = link
+    elif kind == 'symlink_rel':
+        _write_old(real)
+        os.symlink(os.path.join('..', 'store', 'run-0042.cif'), link)
+        target = link
+    elif kind == 'symlink_dangling':
+        os.symlink(real, link)
+        target = link
+    elif kind == 'symlink_chain':
+        _write_old(real)
+        mid = os.path.join(store, 'current.cif')
+        os.symlink('run-0042.cif', mid)
+        os.symlink(mid, link)
+        still_links.append(mid)
+        target = link
+    elif kind == 'symlink_to_other_dir_dangling':
+        os.symlink(os.path.join('..', 'store', 'run-0042.cif'), link)
+        target = link
+    elif kind in ('hardlink', 'hardlink_other_name'):
+        _write_old(real)
+        link = os.path.join(results, 'archive-0042.cif')
+        os.link(real, link)
+        target = real if kind == 'hardlink' else link
+        reads.append(('the other hard link', link if kind == 'hardlink' else real))
+    elif kind == 'symlinked_dir/../name':
+        # <link to store/deep>/../x.cif is store/x.cif, not results/x.cif
+        os.makedirs(os.path.join(store, 'deep'))
+        os.symlink(os.path.join(store, 'deep'), os.path.join(results, 'deep'))
+        decoy = os.path.join(results, 'run-0042.cif')
+        _write_old(real)
+        _write_old(decoy, 'decoy')
+        untouched.append(decoy)
+        target = os.path.join(results, 'deep', '..', 'run-0042.cif')
+    elif kind in ('relative', 'relative_symlink'):
+        # the same relative name from two working directories: two files
+        first_act, first_x = _fs_document(env, saver, tag + '-first', 9)
+        first_x.sig = tuple(first_x.sig) + ('fs', form, saver, 'first')
+        for d in (store, results):
+            _write_old(os.path.join(d, 'run-0042.cif'))
+        name = 'run-0042.cif'
+        if kind == 'relative_symlink':
+            for d in (store, results):
+                os.symlink('run-0042.cif', os.path.join(d, 'latest.cif'))
+            name = 'latest.cif'
+        os.chdir(store)
+        env.execute(lambda: first_act(name), first_x)
+        os.chdir(results)
+        target = name
+        real = os.path.join(results, 'run-0042.cif')
+        cwd = results
+    elif kind == 'reader_holds_target_open':
+        _write_old(real)
+        reader = open(real, 'rb', buffering=0)  # noqa: SIM115  (unbuffered: what the inode holds)
+        reader.read(100)
+        target = real
+    elif kind == 'name_255_bytes':
+        real = os.path.join(store, ('n' * 251) + '.cif')
+        target = real
+    elif kind == 'mode_0640_existing':
+        _write_old(real)
+        os.chmod(real, 0o640)
+        target = real
+    else:
+        raise AssertionError(form)
+    denoted = os.path.realpath(target)          # resolved before the call, in the working directory of the call
+    assert os.path.samefile(denoted, real) if os.path.exists(real) else denoted == os.path.realpath(real), \
+        (denoted, real)
+    links_before = {p: os.readlink(p) for p in ([link] if os.path.islink(link) else []) + still_links}
+    mode_before = os.stat(denoted).st_mode if os.path.exists(denoted) else None
+    try:
+        env.execute(lambda: act(wrap(target)), x)
+        if env.mon.refusal is not None:
+            ctx.count('refused:fs_form:' + form)
+            return
+        keys = {'mechanism': WRONG_FILE_MECH, 'form': form}
+        where = f'{saver} to {form}'
+        for label, src in [('the file the name denotes (os.path.realpath)', denoted), *reads]:
+            judge_named_file(env, x, src, form, label)
+        if reader is not None:
+            same = os.fstat(reader.fileno()).st_ino == os.stat(denoted).st_ino
+            ctx.count('fs.reader_inode_' + ('kept' if same else 'replaced'))
+            judge_named_file(env, x, reader, form, 'through the descriptor a reader opened before the call')
+        for p, dest in links_before.items():
+            ctx.event('fs.link_checked')
+            if not os.path.islink(p) or os.readlink(p) != dest:
+                ctx.violation('doc_wrong_file', f'{where}: {os.path.relpath(p, root)} was a symbolic link to {dest!r} '
+                              'and is ' + (f'a link to {os.readlink(p)!r}' if os.path.islink(p) else 'no link')
+                              + ' after the call', dict(x.describe(), read_as='link'), **keys)
+        for p in untouched:
+            ctx.event('fs.bystander_checked')
+            with open(p) as fh:
+                if fh.read() != OLD_TEXT.replace('old_document', 'decoy_document'):
+                    ctx.violation('doc_wrong_file', f'{where}: {os.path.relpath(p, root)}, which the name does not '
+                                  'denote, was changed', dict(x.describe(), read_as='bystander'), **keys)
+        if kind in ('relative', 'relative_symlink'):
+            # the document of the first call is still where it was written
+            judge_named_file(env, first_x, os.path.join(store, 'run-0042.cif'), form,
+                             'the file of the first call (other working directory)')
+        left = sorted(f for d in (store, results) for f in os.listdir(d)
+                      if not f.endswith('.cif') and f != 'deep')
+        if left:
+            ctx.count('fs.other_files_left_in_the_folder', len(left))
+        if mode_before is not None and os.stat(denoted).st_mode != mode_before:
+            ctx.count('fs.mode_of_existing_file_changed')
+    finally:
+        if reader is not None:
+            reader.close()
+
+
+def _sp_fs_forms_for(saver):
+    def fn(env):
+        cwd0 = os.getcwd()
+        top = tempfile.mkdtemp(prefix='rv-c14-fs-')
+        try:
+            for i, form in enumerate(FS_FORMS):
+                try:
+                    _fs_case(env, saver, form, os.path.join(top, f'f{i}'), f'{i}')
+                finally:
+                    os.chdir(cwd0)
+                env.ctx.hit(f'fs:{saver}:{form}')
+        finally:
+            os.chdir(cwd0)
+            shutil.rmtree(top, ignore_errors=True)
+    return fn
+
+
+def _bytes_refusal(exc):
+    # a binary buffer cannot take text: TypeError (unchanged tree: from the buffer's write())
+    return isinstance(exc, TypeError)
+
+
+def _sp_binary_buffers(env):
+    """BytesIO targets (fresh, with initial content, rewound): a text document cannot go there; either the
+    call is refused or what the buffer holds from the position it stood at is the document."""
+    for label, make in (('fresh', io.BytesIO), ('initial', lambda: io.BytesIO(OLD_TEXT.encode())),
+                        ('initial@end', lambda: _at_end(io.BytesIO(OLD_TEXT.encode())))):
+        for saver in ('save_cif(Block)', 'CIF.save'):
+            act, x = _fs_document(env, saver, 'bytes', 3)
+            x.sig = tuple(x.sig) + ('BytesIO', label, saver)
+            h = make()
+            pos0, before = h.tell(), h.getvalue()
+            env.execute(lambda act=act, h=h: act(h), x, allow=_bytes_refusal)
+            if env.mon.refusal is not None:
+                env.ctx.count(f'refused:BytesIO:{label}')
+                if h.getvalue() != before:
+                    env.ctx.count('BytesIO.changed_by_refused_call')
+                continue
+            env.ctx.count(f'accepted:BytesIO:{label}')
+            judge_named_file(env, x, io.BytesIO(h.getvalue()[pos0:h.tell()]), 'BytesIO:' + label, 'the buffer')
+
+
+def _at_end(h):
+    h.seek(0, 2)
+    return h
+
+
+# ======================================================================
+# in-place modification between two calls, aliasing, fresh interpreter, coinciding sizes
+# ======================================================================
+def _sp_inplace_between_calls(env):
+    """The very same objects saved, modified in place, saved again: the second document is the
+    document of the NEW contents (nothing is remembered per object).  Chunk / Loop / Block hold the
+    objects they were given; the builder's with_* calls take the data as it is when they are called."""
+    cif, md, ctx = env.cif, env.md, env.ctx
+    num = sc.array(dims=['r'], values=[1.0, 2.0, 3.0], variances=[0.01, 0.04, 0.09], unit='us')
+    col = sc.array(dims=['r'], values=['p', 'q', 'r'])
+    val = sc.scalar(1.5, unit='K')
+    txt = sc.scalar('first text')
+    chunk = cif.Chunk({'t.a': 'first', 't.v': val, 't.s': txt})
+    loop = cif.Loop({'l.s': col, 'l.x': num})
+    blk = cif.Block('inplace', [chunk, loop])
+    state = {'a': 'first', 'v': 1.5, 's': 'first text', 'col': ['p', 'q', 'r'], 'x': [1.0, 2.0, 3.0],
+             'var': [0.01, 0.04, 0.09], 'name': 'inplace', 'extra': []}
+
+    def xdoc(step):
+        items = [XItem('pair', ['t.a'], [[('str', state['a'])]]), XItem('pair', ['t.v'], [[('f64', state['v'])]]),
+                 XItem('pair', ['t.s'], [[('str', state['s'])]]),
+                 *[XItem('pair', [t], [[('str', v)]]) for t, v in state['extra'] if t.startswith('t.')],
+                 XItem('loop', ['l.s', 'l.x'] + (['l.n'] if 'n' in state else []),
+                       [[('str', v) for v in state['col']],
+                        [('fvar', x, v, False) for x, v in zip(state['x'], state['var'], strict=True)]]
+                       + ([[('int', v) for v in state['n']]] if 'n' in state else [])),
+                 *[XItem('pair', [t], [[('str', v)]]) for t, v in state['extra'] if not t.startswith('t.')]]
+        return XDoc('lowlevel', 'save_cif:buffer', [XBlock(state['name'], items)], strict=True,
+                    sig=('lowlevel', 'forced', 'in place between calls', step))
+
+    def save(step):
+        env.execute(lambda: cif.save_cif(io.StringIO(), blk), xdoc(step))
+        ctx.event('inplace.saved_again')
+
+    save('first')
+    num.values[1] = 20.5                # values of a column, in place
+    num.variances[1] = 0.25
+    state.update(x=[1.0, 20.5, 3.0], var=[0.01, 0.25, 0.09])
+    save('column values')
+    col.values[0] = "it's #changed"     # a string cell: now needs quoting
+    state.update(col=["it's #changed", 'q', 'r'])
+    save('string cell')
+    col['r', 2] = sc.scalar('l1\nl2')   # a slice: the loop now needs the one-value-per-line layout
+    state.update(col=["it's #changed", 'q', 'l1\nl2'])
+    save('slice, multi-line')
+    val.value = -2.5
+    txt.value = '_second text'
+    state.update(v=-2.5, s='_second text')
+    save('scalar variables')
+    num *= 2.0                          # arithmetic in place
+    state.update(x=[2.0, 41.0, 6.0], var=[0.04, 1.0, 0.36])
+    save('arithmetic in place')
+    # through the objects' own interface
+    chunk['t.a'] = 'second'
+    chunk['t.late'] = 'added later'
+    loop['l.n'] = sc.array(dims=['r'], values=[7, 8, 9], unit=None)
+    blk.add({'u.k': 'added chunk'})
+    blk.name = 'inplace_renamed'
+    state.update(a='second', name='inplace_renamed', n=[7, 8, 9],
+                 extra=[('t.late', 'added later'), ('u.k', 'added chunk')])
+    save('setitem, add, name')
+    loop['l.s'] = sc.array(dims=['r'], values=['x', 'y', 'z'])     # an existing column replaced
+    state['col'] = ['x', 'y', 'z']
+    save('column replaced')
+
+    # the builder: the same data array handed to with_reduced_powder_data before and after it was
+    # modified in place -> two builders, each writes the data as it was when it was handed over
+    def reduced(n, scale, dv=True, cv=False):
+        return dict(_reduced_op('counts', 'tof'), cx=[100.0 + 2.5 * i for i in range(n)],
+                    cv=[0.04 * (i + 1) for i in range(n)] if cv else None,
+                    dx=[scale * (10.0 + i) for i in range(n)], dv=[0.25 * (i + 1) for i in range(n)] if dv else None)
+    n = 4
+    for j, (dv, cv) in enumerate(((True, False), (False, False), (True, True), (False, True))):
+        tag = f'{"su" if dv else "nosu"}_{"csu" if cv else "nocsu"}'
+        op = reduced(n, 1.0, dv, cv)
+        da = sc.DataArray(sc.array(dims=['tof'], values=op['dx'], variances=op['dv'], unit='counts'),
+                          coords={'tof': sc.array(dims=['tof'], values=op['cx'], variances=op['cv'], unit='us')})
+        b1 = cif.CIF('before').with_reduced_powder_data(da)
+        _, x1 = build_program(cif, md, {'name': 'before', 'ops': [op], 'sig': ('in place', 'builder', 0, tag)},
+                              env.tmpdir, f'ip0{j}')
+        env.execute(lambda b1=b1: b1.save(io.StringIO()), x1)
+        da.values[:] = [3.0 * v for v in op['dx']]
+        da.coords['tof'].values[0] = 50.0
+        if dv:
+            da.variances[0] = 9.0
+        if cv:
+            da.coords['tof'].variances[1] = 4.0
+        op2 = dict(reduced(n, 3.0, dv, cv), cx=[50.0, *op['cx'][1:]])
+        if dv:
+            op2['dv'] = [9.0, *op['dv'][1:]]
+        if cv:
+            op2['cv'] = [op['cv'][0], 4.0, *op['cv'][2:]]
+        b2 = cif.CIF('after').with_reduced_powder_data(da)
+        _, x2 = build_program(cif, md, {'name': 'after', 'ops': [op2], 'sig': ('in place', 'builder', 1, tag)},
+                              env.tmpdir, f'ip1{j}')
+        env.execute(lambda b2=b2: b2.save(io.StringIO()), x2)
+        ctx.event('inplace.saved_again')
+        # ... and the builder made EARLIER still writes what it was given (the result does not alias the argument)
+        x1b = _copy.copy(x1)
+        x1b.env, x1b.sig = {}, tuple(x1.sig) + ('argument modified afterwards',)
+        env.execute(lambda b1=b1: b1.save(io.StringIO()), x1b)
+        ctx.event('aliasing.checked')
+    # calibration: coefficients modified after the call (the 'power' coordinate is left alone: the unchanged
+    # tree keeps a reference to it while it derives the ids at the time of the call - counted, see report)
+    cal = sc.DataArray(sc.array(dims=['cal'], values=[3.4, 0.2], variances=[0.01, 0.04], unit='us'),
+                       coords={'power': sc.array(dims=['cal'], values=[0, 1], unit=None)})
+    bc = cif.CIF('cal').with_powder_calibration(cal)
+    cal.values[:] = [9.0, 9.5]
+    cal.variances[:] = [1.0, 4.0]
+    _, xc = build_program(cif, md, {'name': 'cal', 'ops': [
+        {'op': 'calibration', 'powers': [0, 1], 'cx': [3.4, 0.2], 'cv': [0.01, 0.04]}],
+        'sig': ('aliasing', 'calibration')}, env.tmpdir, 'ipc')
+    env.execute(lambda: bc.save(io.StringIO()), xc)
+    ctx.event('aliasing.checked')
+    # observation only (reported to the maintainer, not judged): the power coordinate written into afterwards
+    cal.coords['power'].values[:] = [2, -1]
+    buf = io.StringIO()
+    try:
+        bc.save(buf)
+        rows = [r for b in cif11.parse(buf.getvalue()).blocks for it in b.items if isinstance(it, cif11.Loop)
+                and 'pd_calib_d_to_tof.power' in it.tags for r in it.rows]
+        powers = [r[1].text for r in rows]
+        ctx.count('aliasing.calibration_power_coordinate_' + ('kept' if powers == ['0', '1'] else 'follows_the_argument'))
+    except Exception:  # noqa: BLE001
+        ctx.count('aliasing.calibration_power_probe_failed')
+
+
+def _sp_aliasing_of_results(env):
+    """with_* / copy() return new objects: writing into the result leaves the object it was made
+    from unchanged and the other way round."""
+    cif, md, ctx = env.cif, env.md, env.ctx
+    p1 = person('Jane Doe', True, 'measurement')
+    base = {'name': 'original', 'top': 'c1', 'ops': [{'op': 'authors', 'people': [p1]},
+                                                     {'op': 'reducers', 'items': ['r1 1.0']}]}
+    act, x = build_program(cif, md, dict(base, sig=('aliasing', 'builder', 'original')), env.tmpdir, 'al0')
+    b = act.builder
+    env.execute(act, x)
+    # write into results made from b
+    d1 = b.with_reducers('r2 2.0')
+    d1.name = 'derived'
+    d1.comment = 'c2'
+    d2 = b.copy()
+    d2.name = 'copied'
+    d2 = d2.with_authors(md.Person(name='Max Mustermann', role='analysis'))
+    for k in range(2):                  # b is unchanged, and saving it again gives the original result again
+        xk = _copy.copy(x)
+        xk.env, xk.sig = {}, tuple(x.sig) + ('after writing into results', k)
+        env.execute(act, xk)
+        ctx.event('aliasing.checked')
+    _, xd1 = build_program(cif, md, {'name': 'derived', 'top': 'c2', 'ops': [
+        *base['ops'], {'op': 'reducers', 'items': ['r2 2.0']}], 'sig': ('aliasing', 'builder', 'derived')},
+        env.tmpdir, 'al1')
+    _, xd2 = build_program(cif, md, {'name': 'copied', 'top': 'c1', 'ops': [
+        *base['ops'], {'op': 'authors', 'people': [person('Max Mustermann', False, 'analysis')]}],
+        'sig': ('aliasing', 'builder', 'copy')}, env.tmpdir, 'al2')
+    # write into b: the results made EARLIER are unchanged
+    b.name = 'original_renamed'
+    b.comment = 'c3'
+    env.execute(lambda: d1.save(io.StringIO()), xd1)
+    env.execute(lambda: d2.save(io.StringIO()), xd2)
+    ctx.event('aliasing.checked', 2)
+    # Block.copy(): content added to the copy / to the original afterwards stays there
+    pair = XItem('pair', ['k.v'], [[('str', 'x y')]])
+    blk = cif.Block('blk', [{'k.v': 'x y'}], schema=cif.CORE_SCHEMA)
+    cp = blk.copy()
+    cp.add({'k.copy': 'only in the copy'})
+    cp.name = 'blk_copy'
+    blk.add({'k.orig': 'only in the original'})
+    for obj, name, extra in ((blk, 'blk', ('k.orig', 'only in the original')),
+                             (cp, 'blk_copy', ('k.copy', 'only in the copy'))):
+        xb = XDoc('lowlevel', 'save_cif:buffer', [XBlock(name, [
+            _schema_item(['coreCIF']), pair, XItem('pair', [extra[0]], [[('str', extra[1])]])])], strict=True,
+            sig=('lowlevel', 'forced', 'aliasing', 'Block.copy', name))
+        env.execute(lambda obj=obj: cif.save_cif(io.StringIO(), obj), xb)
+        ctx.event('aliasing.checked')
+
+
+_FRESH_PRELUDE = """
+import io, sys, json
+import scipp as sc
+from scippneutron.io import cif
+assert not any(m.startswith('rv') for m in sys.modules), 'harness imported'
+"""
+_FRESH_SCRIPTS = {
+    'save_cif': """
+blk = cif.Block('fresh', [{'k.v': 'x y', 'k.u': 'caf\\xe9 \\u212b', 'k.n': sc.scalar(1.5, variance=0.04, unit='K')},
+                          cif.Loop({'l.s': sc.array(dims=['r'], values=['p q', '_r', 'l1\\nl2']),
+                                    'l.x': sc.array(dims=['r'], values=[1.0, 2.5, 4.0], unit='us')})])
+f = io.StringIO()
+cif.save_cif(f, blk, comment='first call')
+""",
+    'Block.write': """
+blk = cif.Block('fresh', [{'k.v': 'x y', 'k.u': 'caf\\xe9 \\u212b', 'k.n': sc.scalar(1.5, variance=0.04, unit='K')},
+                          cif.Loop({'l.s': sc.array(dims=['r'], values=['p q', '_r', 'l1\\nl2']),
+                                    'l.x': sc.array(dims=['r'], values=[1.0, 2.5, 4.0], unit='us')})])
+f = io.StringIO()
+blk.write(f)
+""",
+    'CIF.save': """
+da = sc.DataArray(sc.array(dims=['tof'], values=[13.6, 26.0, 9.7], variances=[0.7, 1.1, 0.5], unit='counts'),
+                  coords={'tof': sc.array(dims=['tof'], values=[1.2, 1.4, 2.3], unit='us')})
+cal = sc.DataArray(sc.array(dims=['cal'], values=[3.4, 0.2]), coords={'power': sc.array(dims=['cal'], values=[0, 1])})
+b = (cif.CIF('fresh', comment='first call')
+     .with_authors(cif.Person(name='Jane Doe', role='measurement', corresponding=True, address='Lund'),
+                   cif.Person(name="Max O'Mustermann", role='analysis'))
+     .with_reducers('some package 1.0', 'other 2.0')
+     .with_beamline(cif.Beamline(name='DREAM', facility='ESS'))
+     .with_reduced_powder_data(da).with_powder_calibration(cal))
+f = io.StringIO()
+b.save(f)
+""",
+}
+
+
+def _fresh_expectation(which):
+    if which in ('save_cif', 'Block.write'):
+        items = [XItem('pair', ['k.v'], [[('str', 'x y')]]), XItem('pair', ['k.u'], [[('str', 'caf\xe9 Å')]]),
+                 XItem('pair', ['k.n'], [[('fvar', 1.5, 0.04, False)]]),
+                 XItem('loop', ['l.s', 'l.x'], [[('str', 'p q'), ('str', '_r'), ('str', 'l1\nl2')],
+                                                [('f64', 1.0), ('f64', 2.5), ('f64', 4.0)]])]
+        return None, XDoc('lowlevel', 'save_cif:buffer' if which == 'save_cif' else 'Block.write',
+                          [XBlock('fresh', items)], strict=True, heading=which == 'save_cif',
+                          top_comment='first call' if which == 'save_cif' else '',
+                          sig=('fresh interpreter', which))
+    prog = {'name': 'fresh', 'top': 'first call', 'sig': ('fresh interpreter', which), 'ops': [
+        {'op': 'authors', 'people': [person('Jane Doe', True, 'measurement', None, None, 'Lund'),
+                                     person("Max O'Mustermann", False, 'analysis')]},
+        {'op': 'reducers', 'items': ['some package 1.0', 'other 2.0']},
+        {'op': 'beamline', 'facility': 'ESS', 'name': 'DREAM', 'source': None, 'source_omitted': True},
+        dict(_reduced_op('counts', 'tof'), cx=[1.2, 1.4, 2.3]),
+        {'op': 'calibration', 'powers': [0, 1], 'cx': [3.4, 0.2], 'cv': None}]}
+    return prog, None
+
+
+def _sp_fresh_interpreter_for(which):
+    def fn(env):
+        """First call in a fresh interpreter that imported only scippneutron.io.cif (and scipp for the
+        operands): the document is judged like any other and equals what this process writes."""
+        import subprocess
+        import sys
+        ctx, mon = env.ctx, env.mon
+        prog, x = _fresh_expectation(which)
+        if prog is not None:
+            act, x = build_program(env.cif, env.md, prog, env.tmpdir, 'fresh')
+        script = _FRESH_PRELUDE + _FRESH_SCRIPTS[which] + "sys.stdout.write(json.dumps(f.getvalue()))\n"
+        x.report_as = ('doc_fresh_interpreter', {'mechanism': 'first_call_in_fresh_interpreter', 'entry': which})
+        mon.begin(x)
+        try:
+            case = x.describe()
+            mon._set_reporter(x, case, f'{which} as the first call of a fresh interpreter')
+            try:
+                proc = subprocess.run([sys.executable, '-c', script], capture_output=True, text=True,
+                                      timeout=600, env=dict(os.environ), check=False)
+            except Exception:  # noqa: BLE001
+                ctx.oracle_error('C14 starting a fresh interpreter')
+                return
+            x.env['t1'] = _dt.datetime.now(_dt.timezone.utc)
+            mon.judged_docs += 1
+            ctx.event('document')
+            ctx.event('document.fresh_interpreter')
+            if proc.returncode != 0:
+                case['stderr'] = proc.stderr[-1500:]
+                last = proc.stderr.strip().splitlines()[-1:] or ['']
+                mon._report('raised', f'exit status {proc.returncode}: {last[0][:200]}')
+                return
+            try:
+                import json
+                text = json.loads(proc.stdout)
+            except Exception:  # noqa: BLE001
+                ctx.oracle_error('C14 decoding the output of the fresh interpreter')
+                return
+            mon.judge_text(x, text, case)
+        finally:
+            mon.end()
+        ctx.case(x.sig)
+        # the same calls in this process
+        ns = {}
+        exec(compile("import io\nimport scipp as sc\n" + _FRESH_SCRIPTS[which], '<fresh>', 'exec'),  # noqa: S102
+             {'cif': env.cif}, ns)
+        here = ns['f'].getvalue()
+        strip = re.compile(r'^_audit\.creation_date .*$', re.MULTILINE)
+        ctx.event('fresh.compared_with_worker')
+        if strip.sub('', here) != strip.sub('', text):
+            ctx.violation('doc_fresh_interpreter', f'{which}: the first call of a fresh interpreter writes another '
+                          'text than this process', {'fresh': text[:1500], 'here': here[:1500]},
+                          mechanism='first_call_in_fresh_interpreter', entry=which)
+    return fn
+
+
+def _sp_coinciding_sizes(env):
+    """Sizes that coincide with sizes the writer uses itself, one below and one above: 1 / 2 reducers and
+    authors (pair versus loop), the 3 columns and 1 / 2 rows of the schema loop, the 4 standard calibration
+    powers, the 75 characters of a block code."""
+    cif, md, ctx = env.cif, env.md, env.ctx
+    k = 0
+    for n in range(4):
+        for nc, nr in ((0, n), (n, 0), (n, n)):
+            if n == 0 and (nc, nr) != (0, 0):
+                continue
+            people = [person(f'Contact {i}', True, f'role c{i}' if i % 2 == 0 else None) for i in range(nc)] + \
+                     [person(f'Author {i}', False, f'role r{i}' if i % 2 == 1 or nr == 1 else None) for i in range(nr)]
+            prog = {'name': f'sizes_{nc}_{nr}', 'sig': ('sizes', 'authors', nc, nr), 'ops': [
+                {'op': 'authors', 'people': people}, {'op': 'reducers', 'items': [f'prog {i}' for i in range(n)]}]}
+            env.execute(*build_program(cif, md, prog, env.tmpdir, f'sz{k}'))
+            k += 1
+    pool = [0, 1, 2, -1, 3, -2]
+    for n in (1, 3, 4, 5, 6):
+        prog = {'name': f'sizes_cal_{n}', 'sig': ('sizes', 'calibration', n), 'ops': [
+            {'op': 'calibration', 'powers': pool[:n], 'cx': [0.5 + i for i in range(n)],
+             'cv': [0.01 * (i + 1) for i in range(n)] if n % 2 else None}]}
+        env.execute(*build_program(cif, md, prog, env.tmpdir, f'sz{k}'))
+        k += 1
+    for rows in (1, 2, 3):
+        for cols in (1, 2, 3, 4):
+            d = {f's.c{c}': sc.array(dims=['schema'], values=[f'v {r} {c}' for r in range(rows)]) for c in range(cols)}
+            x = XDoc('lowlevel', 'save_cif:buffer', [XBlock('sizes', [XItem(
+                'loop', list(d), [[('str', v) for v in col.values] for col in d.values()])])], strict=True,
+                sig=('lowlevel', 'forced', 'sizes', rows, cols))
+            env.execute(lambda d=d: cif.save_cif(io.StringIO(), cif.Block('sizes', [cif.Loop(d)])), x)
+    for n in (1, 2, 74):
+        nm = ('n%d_' % n + 'abcdefghij' * 12)[:n]
+        x = XDoc('lowlevel', 'save_cif:buffer', [XBlock(nm, [XItem('pair', ['k.v'], [[('str', 'x')]])])],
+                 strict=True, sig=('lowlevel', 'forced', 'name length', n))
+        env.execute(lambda nm=nm: cif.save_cif(io.StringIO(), cif.Block(nm, [{'k.v': 'x'}])), x)
+    ctx.event('sizes.checked', k)
+
+
 def forced_specials():
     """[(forced class, function(env))]"""
     out = []
@@ -3012,7 +3722,13 @@ def forced_specials():
         ('subclass:write_override', _sp_subclasses),
         ('target:every_path_kind', _sp_targets),
         ('forms:Block(content=)_and_mappings', _sp_block_content_forms),
+        ('target:BytesIO', _sp_binary_buffers),
+        ('inplace:modified_between_two_calls', _sp_inplace_between_calls),
+        ('aliasing:results_of_with_and_copy', _sp_aliasing_of_results),
+        ('sizes:coinciding_with_internal_sizes', _sp_coinciding_sizes),
     ]
+    out += [(f'fresh_interpreter:{w}', _sp_fresh_interpreter_for(w)) for w in _FRESH_SCRIPTS]
+    out += [(f'fs:{saver}', _sp_fs_forms_for(saver)) for saver in FS_SAVERS]
     return out
 
 
@@ -3041,11 +3757,19 @@ def requirements(tier):
                    'document.handle': 1000, 'document.handle_in_use': 100, 'handle.reused': 40,
                    'document.concatenation': 30,
                    # saves after a refused assignment to Block.name / CIF.name (3 kinds of blank x 8 ways of saving)
-                   'after_refused_name': 24},
+                   'after_refused_name': 24,
+                   # path targets in their file-system forms: reads of the file the name denotes (os.path.realpath,
+                   # the other hard link, a descriptor opened before the call); links that must stay links
+                   'document.denoted_file': 40, 'fs.link_checked': 15,
+                   # the same objects saved again after an in-place modification; results / arguments written into
+                   # after a call; first calls of fresh interpreters; sizes coinciding with internal ones
+                   'inplace.saved_again': 12, 'aliasing.checked': 11, 'document.fresh_interpreter': 3,
+                   'fresh.compared_with_worker': 3, 'sizes.checked': 1},
         'forced': ['str:' + n for n, _ in FORCED] + ['empty_block_name', 'file_comment_non_ascii',
                                                       'loop_50_rows', 'loop_6_columns']
         + [n for n, _ in forced_programs()] + [s[0] for s in forced_lowlevel()]
-        + [n for n, _ in forced_specials()] + forced_session_classes(),
+        + [n for n, _ in forced_specials()] + forced_session_classes()
+        + [f'fs:{sv}:{f}' for sv in FS_SAVERS for f in FS_FORMS],
     }
 
 
